@@ -425,7 +425,7 @@ std::vector<std::string> Cells(int tier) {
 bool CellBounds(const vx::Cell& cell, int tier, vx::Bounds& b) {
   const int n = cell.Int("n");
   b.P = n <= 1 ? 99 : (tier == 0 ? 3 : 99);
-  b.S = (cell.Str("await").find("shared") != std::string::npos || cell.Str("await").find("mixed") != std::string::npos) ? 1 : 0;
+  b.S = 1;  // costs nothing where no weak CAS is executed, and a weak CAS may appear anywhere
   b.T = 0;
   return true;
 }
